@@ -127,6 +127,7 @@ type harness struct {
 	seq     uint64
 	cur     *sess
 	nSess   int
+	nSessP1 int // sessions started before faults stopped
 	notifs  []chan error
 
 	tick, fetchTO, dflt int64
